@@ -530,12 +530,16 @@ func init() {
 	register(&mc.Check{
 		ID:    "C09",
 		Level: "exploration",
-		Rule: "fetch: every commit DAG of 1..3 (thorough 4) nodes x every ancestor-closed set held by the server x every ancestor-closed set held by the client (ahead, behind, diverged, unrelated, equal all arise) x depth 0..2, completely; crossed with up to d deviations over: table assignment from a pool that shares blocks, server refs on all tips / newest tip / additionally on any non-tip commit, the order in which the finder walks the wanted commits, tables absent at the client (earlier shallow fetch), haves per round trip {256,1,2}, server-side table negotiation, max packfile size {default,1,4096}. " +
+		Rule: "CLI tier (cli-fetch-push): `wrgl fetch` / `wrgl push` against the reference server with two refspecs per operation (relation of old and offered value x ref kind head / remote-tracking / tag / custom / head->tag x '+'; deviations --force and commit-time order), the receiving repository holding only what its own refs reach: afterwards every ref of the operation has its full history with tables there. " +
+			"fetch: every commit DAG of 1..3 (thorough 4) nodes x every ancestor-closed set held by the server x every ancestor-closed set held by the client (ahead, behind, diverged, unrelated, equal all arise) x depth 0..2, completely; crossed with up to d deviations over: table assignment from a pool that shares blocks, server refs on all tips / newest tip / additionally on any non-tip commit, the order in which the finder walks the wanted commits, tables absent at the client (earlier shallow fetch), haves per round trip {256,1,2}, server-side table negotiation, max packfile size {default,1,4096}. " +
 			"The real UploadPackSession talks HTTP (in-process round tripper, no sockets) to a reference server assembled from the repository's own finder/sender/receiver. Oracle: fetch succeeds; every ancestor of every advertised tip exists locally, tables within the depth are present and pass the structural oracle; objects present on both sides are byte-identical; an immediately repeated fetch transfers 0 objects and changes nothing. " +
 			"push: same universe, the real ReceivePackSession pushes a local tip to a new remote ref (remote possibly holding commits without tables; as a deviation the local repository itself shallow, which must be refused or, if it succeeds, still leave the remote complete): the remote must end with the full history incl. tables, identical objects, and a repeated push transfers nothing. non-trivial = at least one object transferred; distinct by case description",
 		Assumptions: []string{"the server half is /verif's reference assembly of the repository's own components (refsrv); auth, proxies and HTTP/2 stream errors are not modelled", "commits that the receiving side already held without their table before the operation are not promised to be completed by it, except (fetch) those the new history reaches without passing through a commit the receiver already held in full"},
 		Harnesses: []*mc.Harness{
 			{Name: "fetch-sessions", Body: c09Fetch, DevBound: map[string]int{"quick": 2, "thorough": 3}, Budget: map[string]time.Duration{"quick": 75 * time.Second, "thorough": 14 * time.Minute}},
+			// `wrgl fetch` / `wrgl push` through the real command tree with two refspecs (every ref kind, '+', --force): the body of C10's
+			// harness; the receiving repository holds only what its refs reach, and must afterwards hold the full history of every ref of the operation
+			{Name: "cli-fetch-push", Body: c10FetchPush, DevBound: map[string]int{"quick": 1, "thorough": 2}, Budget: map[string]time.Duration{"quick": 75 * time.Second, "thorough": 8 * time.Minute}},
 			{Name: "push-sessions", Body: c09Push, DevBound: map[string]int{"quick": 2, "thorough": 3}, Budget: map[string]time.Duration{"quick": 60 * time.Second, "thorough": 10 * time.Minute}},
 		},
 	})
